@@ -280,6 +280,38 @@ pub fn encexec(args: &[String]) {
         "drifted_frames": drifted, "drift_examples": drift_ex}));
 }
 
+/// The built-in match finder behind a wrapper that configures itself in reset(): until then it reports the smallest window.
+/// (The Matcher trait allows window_size() to change with reset; the frame header must carry the value that holds while
+/// the frame is produced.)
+pub struct LateWindow {
+    inner: MatchGeneratorDriver,
+    configured: bool,
+}
+impl ruzstd::encoding::Matcher for LateWindow {
+    fn get_next_space(&mut self) -> Vec<u8> {
+        self.inner.get_next_space()
+    }
+    fn get_last_space(&mut self) -> &[u8] {
+        self.inner.get_last_space()
+    }
+    fn commit_space(&mut self, space: Vec<u8>) {
+        self.inner.commit_space(space)
+    }
+    fn skip_matching(&mut self) {
+        self.inner.skip_matching()
+    }
+    fn start_matching(&mut self, handle_sequence: impl for<'a> FnMut(ruzstd::encoding::Sequence<'a>)) {
+        self.inner.start_matching(handle_sequence)
+    }
+    fn reset(&mut self, level: CompressionLevel) {
+        self.configured = true;
+        self.inner.reset(level)
+    }
+    fn window_size(&self) -> u64 {
+        if self.configured { self.inner.window_size() } else { 1024 }
+    }
+}
+
 /// encgeom <seed> <quick|thorough> <report.json>
 /// The built-in match finder at other geometries (slice size x slices per window, hook H6) behind the public
 /// FrameCompressor::new_with_matcher: the window the frame header declares must cover every offset the matcher uses
@@ -298,8 +330,8 @@ pub fn encgeom(args: &[String]) {
     let mut windows: Vec<Value> = vec![];
     for (slice, slices) in geoms {
         let win = slice * slices;
-        let m = MatchGeneratorDriver::verif_new(slice, slices);
-        let mut comp: FrameCompressor<FragReader, Vec<u8>, MatchGeneratorDriver> = FrameCompressor::new_with_matcher(m, CompressionLevel::Fastest);
+        let m = LateWindow { inner: MatchGeneratorDriver::verif_new(slice, slices), configured: false };
+        let mut comp: FrameCompressor<FragReader, Vec<u8>, LateWindow> = FrameCompressor::new_with_matcher(m, CompressionLevel::Fastest);
         let mut declared = 0u64;
         for k in 0..(if quick { 5 } else { 12 }) {
             // data whose repeats sit just inside the window: random head, then copies of its start at distance ~ win - few bytes
